@@ -872,7 +872,7 @@ Qed.
 Lemma statement_refuted : ~ statement.
 Proof.
   intros H. destruct w_ancestor_refutes as [Hwf [_ Hn]].
-  apply Hn. apply (H isort isort_perm w_ancestor Hwf).
+  apply Hn. destruct (H isort isort_perm w_ancestor Hwf) as [H1 _]. exact H1.
 Qed.
 
 (* a cache without defects on which cleaning does something: two old entries, one retrieved,
